@@ -230,6 +230,20 @@ def normalise_loop_break(lines, counts):
     return out
 
 
+def join_method_chains(lines, counts):
+    """T21: a line that starts with `.` continues the expression of the line before it (a method chain broken across lines):
+    it is joined to that line, so that the layout of a chain does not matter."""
+    out = []
+    for txt, no in lines:
+        t = txt.strip()
+        if out and re.match(r'^\.[A-Za-z_]', t) and not out[-1][0].strip().startswith('//'):
+            out[-1] = (out[-1][0].rstrip() + t, out[-1][1])
+            counts.bump('T21_chain_line_joined')
+        else:
+            out.append((txt, no))
+    return out
+
+
 _FOR = re.compile(r'^(\s*)for (.+?) in (.+)$')
 
 
@@ -371,6 +385,7 @@ def transform(text, counts, select=None):
     lines = strip_cfg_test(lines, counts)
     if select:
         lines = select_items(lines, select)
+    lines = join_method_chains(lines, counts)
     lines = rewrite_asserts(lines, counts)
     lines = rewrite_unchecked(lines, counts)
     lines = split_block_heads(lines, counts)
@@ -704,13 +719,26 @@ def local_renames(base, cur, bmap):
     return res
 
 
+
+def _line_key(t):
+    s = t.strip()
+    toks = _TOK.findall(s)
+    if toks[:1] == ['use'] or toks[:2] == ['pub', 'use']:
+        return 'use ' + ' '.join(sorted(x for x in toks if re.match(r'^\w+$', x) and x not in ('use', 'pub')))
+    while toks and toks[-1] in (',', ';'):
+        toks.pop()
+    return ' '.join(toks)
+
+
 def _line_map(base, cur):
     """base idx -> ('eq'|'mod', cur idx); vanished base idx -> cur idx after which its annotations go (-1: file head).
     Functions are aligned with each other first (so a function that moved inside the file, or was renamed, is compared with
     itself), the text outside functions is aligned as one sequence; lines that moved inside a function (identical or
     near-identical text, unmatched on both sides, unique) are mapped too."""
-    bs = [t.strip() for t, _ in base]
-    cs = [t.strip() for t, _ in cur]
+    # lines are compared by their token sequence (layout inside a line, a trailing `,` / `;`, the order of the names in a
+    # `use` list do not matter for the alignment; what is emitted is always the current text)
+    bs = [_line_key(t) for t, _ in base]
+    cs = [_line_key(t) for t, _ in cur]
     bmap, anchor = {}, {}
     changed = 0
     free_b, free_c = [], []
@@ -765,12 +793,20 @@ def _line_map(base, cur):
         for lo, hi, clo, chi in plan:
             diff_segment(list(range(lo, hi + 1)), list(range(clo, chi + 1)))
         fn_pairs = plan
+    # text outside functions (use lines, items): moved lines are looked for over the whole file
+    fn_pairs = list(fn_pairs) + [(-1, -1, -1, -1)]
     # moved lines: inside one function, a vanished line whose text reappears exactly once among the new lines of that function
     moved = 0
     free_cs = set(free_c)
+    in_fn_b = set(b for lo, hi, _, _ in fn_pairs for b in range(lo, hi + 1) if lo >= 0)
+    in_fn_c = set(c for _, _, clo, chi in fn_pairs for c in range(clo, chi + 1) if clo >= 0)
     for lo, hi, clo, chi in fn_pairs:
-        fb = [b for b in free_b if lo <= b <= hi]
-        fc = [c for c in range(clo, chi + 1) if c in free_cs]
+        if lo < 0:
+            fb = [b for b in free_b if b not in in_fn_b]
+            fc = sorted(c for c in free_cs if c not in in_fn_c)
+        else:
+            fb = [b for b in free_b if lo <= b <= hi]
+            fc = [c for c in range(clo, chi + 1) if c in free_cs]
         by_text_b, by_text_c = {}, {}
         for bi in fb:
             by_text_b.setdefault(bs[bi], []).append(bi)
@@ -857,7 +893,11 @@ def merge(olines, base, cur, relpath, overlay_name):
 
     def emit_ann(block):
         for x in block:
-            out.append(x.text)
+            t = x.text
+            if t.lstrip().startswith(', ') and out and out[-1].split('//')[0].rstrip().endswith(','):
+                # a ghost field appended after the last field of a struct: the current text already has the trailing comma
+                t = t.replace(', ', '', 1)
+            out.append(t)
             origin.append(('A', overlay_name, x.ono))
 
     emit_ann(head)
